@@ -21,6 +21,8 @@ structure DS where
   fileExists : Bool := false
   /-- acknowledged writes, newest first -/
   accRev : List Entry := []
+  /-- chronicler mode: configured, file not created yet (the writer is opened lazily) -/
+  chronLazy : Bool := false
 
 def triArg (kv : List (String × String)) (k : String) (dflt : Bool) : Bool :=
   match arg kv k with
@@ -130,6 +132,18 @@ def specFlag (d : DS) (r : Except Err (Index × Bytes)) : String :=
   if good then "" else
     s!"\t#F:{causeOf d (parseFile d.cfg idCodec.toDecoder crc0 d.st.file)}"
 
+/-- `chroniclerV2.Write` of one treasure: `ensureWriter` (create on first use, reopen after a
+    `Close`), then `WriteEntry`; an error is logged and the entry dropped -/
+def chronWrite (d : DS) (e : Entry) : DS :=
+  let d1 : DS :=
+    if d.chronLazy then
+      match createFileCfg d.cfg d.name 0 with
+      | none => d
+      | some st => { d with st := st, fileExists := true, chronLazy := false }
+    else if d.st.sess.isNone && d.fileExists then (doOp d .reopen).1
+    else d
+  (doOp d1 (.write e)).1
+
 def step (d : DS) (line : String) : DS × String :=
   match line.splitOn " " with
   | ["case", _] => ({ cfg := d.cfg }, line)
@@ -156,6 +170,28 @@ def step (d : DS) (line : String) : DS × String :=
         if r == .ok then (d', okc + 1, last) else (d', okc, replyStr r)) (d, 0, "ok")
       (d', if okc == n then "ok" else s!"{last} after={okc}")
     | _, _, _, _ => (d, "bad-op")
+  | ["ccfg", bs, nm] =>
+    match bs.toNat?, parseSpec nm with
+    | some bs, some name =>
+      -- NewV2WithConfig carries no name; NewV2WithName uses the default block size
+      ({ cfg := d.cfg, bs := bs, name := if bs == 0 then name else [], chronLazy := true }, "ok")
+    | _, _ => (d, "bad-op")
+  | ["cw", k, v] =>
+    match parseSpec k, parseSpec v with
+    | some k, some v => (chronWrite d ⟨opInsert, k, v⟩, "ok")
+    | _, _ => (d, "bad-op")
+  | ["cd", k] =>
+    match parseSpec k with
+    | some k => (chronWrite d ⟨opDelete, k, []⟩, "ok")
+    | none => (d, "bad-op")
+  | ["cclose"] => let (d', _) := doOp d .close; (d', "ok")
+  | ["cload"] =>
+    if !d.fileExists then (d, "cidx 0:00000000 ") else
+    let r := loadIndex d.cfg idCodec.toDecoder crc0 d.st.file
+    let line := match r with
+      | .error e => s!"cidx err:{e.name}"
+      | .ok (m, _) => s!"cidx {indexDigest m}{indexListing m}"
+    (d, line ++ specFlag d r)
   | ["flush"] => let (d', r) := doOp d .flush; (d', replyStr r)
   | ["sync"] => let (d', r) := doOp d .sync; (d', replyStr r)
   | ["close"] => let (d', r) := doOp d .close; (d', replyStr r)
